@@ -8,6 +8,7 @@ import Swat4.Lemmas.BrowserReqBridge
 import Swat4.Properties.C01
 import Swat4.Properties.C02
 import Swat4.Properties.C03
+import Swat4.Model.UdpServer
 /-!
 # C06 — No inbound bytes can crash a listener or change state unless well-formed
 
@@ -828,5 +829,28 @@ theorem facts_config_wiring :
     (Facts.configWiring.filter fun r => configRows.contains r) = configRows ∧
     (Facts.configWiring.filter fun r => configRows.any fun c => c.1 == r.1 && c.2.1 == r.2.1 && c.2.2.1 == r.2.2.1 && c.2.2.2.1 == r.2.2.2.1) = configRows := by
   decide
+
+/-! ## the socket layer in front of the dispatcher -/
+
+/-- **no datagram can crash the UDP listener, socket layer included**: whatever arrives — any length, also none and
+more than the buffer holds — the read loop (`UdpServer.deliver`) hands the dispatcher either nothing (an empty read,
+which changes nothing and does not end the loop) or a non-empty prefix of the datagram, and on a non-empty payload the
+dispatcher does not panic (`udp_total`).  The dispatcher's one panicking input, the empty payload
+(`udp_empty_panics`), cannot reach it from the socket. -/
+theorem udp_socket_never_panics (cfg : Cfg) (st : AbsState) (srcIp srcPort bufSize : Nat) (p : Bytes) (now : Int) :
+    match UdpServer.deliver bufSize p with
+    | none => True
+    | some b => (dispatch cfg st srcIp srcPort b now).2 ≠ .panic := by
+  cases h : UdpServer.deliver bufSize p with
+  | none => trivial
+  | some b => exact udp_total cfg st srcIp srcPort b (UdpServer.deliver_nonempty h) now
+
+/-- what the dispatcher sees is a prefix of what was sent, and all of it when it fits — including a datagram of
+exactly the buffer's size (a "truncated?" test `n ≥ len(buffer)` would drop those) -/
+theorem udp_socket_delivers (bufSize : Nat) (p : Bytes) (hp : p ≠ []) (hn : p.length ≤ bufSize) :
+    UdpServer.deliver bufSize p = some p := UdpServer.deliver_fits hp hn
+
+example (x : UInt8) (rest : Bytes) (h : rest.length = 2047) : UdpServer.deliver 2048 (x :: rest) = some (x :: rest) :=
+  UdpServer.deliver_fits (by simp) (by simp [h])
 
 end Swat4.C06
